@@ -30,10 +30,12 @@ def main():
     ap.add_argument("--checks")
     ap.add_argument("--tier", default="quick")
     ap.add_argument("--src")
+    ap.add_argument("--wt", help="the sub-agent's worktree (default /tmp/seed-<prop>)")
+    ap.add_argument("--name", help="store as seeded/<prop>-<name> (default <k>)")
     a = ap.parse_args()
-    sid = "%s-%s" % (a.prop, a.k)
+    sid = "%s-%s" % (a.prop, a.name or a.k)
     dst = os.path.join(ROOT, "seeded", sid)
-    wt = "/tmp/seed-%s" % a.prop
+    wt = a.wt or "/tmp/seed-%s" % a.prop
     made_wt = False
     if not os.path.isdir(wt):
         # the sub-agents' worktrees are gone: make a scratch worktree of /repo's HEAD for this run and remove it afterwards
